@@ -23,7 +23,7 @@ Record wcase := mkW {
   w_rets : list (Z * bool);          (* per Write: n, err == nil *)
   w_exists : bool;
   w_cur : rle;
-  w_rot : list (N * rle);            (* <path>.<ts>, ts relative, ascending *)
+  w_rot : list (N * N * rle);        (* <path>.<ts>[.<k>]: (ts relative, k, content), ascending *)
   w_moved : list rle;
   w_gone : list rle                  (* read by the harness just before it removed the file *)
 }.
@@ -38,7 +38,7 @@ Record ccase := mkC {
   (* observed *)
   c_blocked : bool;                  (* some Send did not return within the bound *)
   c_cur : rle;
-  c_rot : list (N * rle)
+  c_rot : list (N * N * rle)
 }.
 
 Inductive case := CW (c : wcase) | CC (c : ccase).
@@ -61,15 +61,18 @@ Fixpoint list_eqb {A} (e : A -> A -> bool) (a b : list A) : bool :=
   | _, _ => false
   end.
 
-Fixpoint ins (e : N * bytes) (l : list (N * bytes)) : list (N * bytes) :=
+Definition name_leb (a b : rname) : bool :=
+  (fst a <? fst b)%N || ((fst a =? fst b)%N && (snd a <=? snd b)%N).
+
+Fixpoint ins (e : rname * bytes) (l : list (rname * bytes)) : list (rname * bytes) :=
   match l with
   | [] => [e]
-  | x :: r => if (fst e <=? fst x)%N then e :: l else x :: ins e r
+  | x :: r => if name_leb (fst e) (fst x) then e :: l else x :: ins e r
   end.
-Definition sort_rot (l : list (N * bytes)) : list (N * bytes) := fold_right ins [] l.
+Definition sort_rot (l : list (rname * bytes)) : list (rname * bytes) := fold_right ins [] l.
 
-Definition rot_eqb (a b : list (N * bytes)) : bool :=
-  list_eqb (fun x y => (fst x =? fst y)%N && beq (snd x) (snd y)) a b.
+Definition rot_eqb (a b : list (rname * bytes)) : bool :=
+  list_eqb (fun x y => (fst (fst x) =? fst (fst y))%N && (snd (fst x) =? snd (fst y))%N && beq (snd x) (snd y)) a b.
 
 Fixpoint remove1 (x : bytes) (l : list bytes) : option (list bytes) :=
   match l with
@@ -95,9 +98,9 @@ Definition proper_suffix (le : Z) (e l : bytes) : bool :=
   (le <? ll) && beq e (skipn (Z.to_nat (ll - le)) l).
 
 (* ---- signatures ---- *)
-Definition SIG_LOST := 1%N.        (* a line lost / cut / duplicated / invented, outside the known classes *)
-Definition SIG_DROP := 2%N.        (* first byte(s) of a line gone; input has a rotation without newline in its window *)
-Definition SIG_OVERWRITE := 3%N.   (* whole lines gone; input has two rotations in one wall-clock second *)
+Definition SIG_LOST := 1%N.        (* a line lost / cut / duplicated / invented, outside the classes below *)
+Definition SIG_DROP := 2%N.        (* first byte(s) of a line gone; input has a rotation without newline in its window (repaired in /repo: a regression) *)
+Definition SIG_OVERWRITE := 3%N.   (* whole lines gone; input has two rotations in one wall-clock second (repaired in /repo: a regression) *)
 Definition SIG_DROP_OVERWRITE := 4%N. (* both of the above *)
 Definition SIG_SIZE := 5%N.        (* a file larger than max that is not a single line *)
 Definition SIG_WRITE_ERR := 6%N.   (* Write returned an error or a wrong count *)
@@ -135,7 +138,7 @@ Definition to_op (o : cop) : op :=
 Definition w_model (c : wcase) : option (rf * list Z) :=
   run (rf_open (w_max c) (w_sec0 c) (unrle (w_init c))) [] (map to_op (w_ops c)).
 
-Definition unrot (l : list (N * rle)) : list (N * bytes) := map (fun e => (fst e, unrle (snd e))) l.
+Definition unrot (l : list (N * N * rle)) : list (rname * bytes) := map (fun e => (fst e, unrle (snd e))) l.
 
 Definition w_mismatch (c : wcase) : bool :=
   match w_model c with
@@ -162,7 +165,7 @@ Fixpoint rets_ok (ps : list bytes) (rs : list (Z * bool)) : bool :=
 
 Definition w_class (c : wcase) : bool * bool :=
   match w_model c with
-  | Some (st, _) => (has_drop (rf_hist st), negb (secs_distinct (rf_hist st)))
+  | Some (st, _) => (has_nowin (rf_hist st), has_samesec (rf_hist st))
   | None => (false, false)
   end.
 
@@ -192,7 +195,7 @@ Definition c_mismatch (c : ccase) : bool :=
 
 Definition c_class (c : ccase) : bool * bool :=
   match c_model c with
-  | Some w => (has_drop (rf_hist (wl_rf w)), negb (secs_distinct (rf_hist (wl_rf w))))
+  | Some w => (has_nowin (rf_hist (wl_rf w)), has_samesec (rf_hist (wl_rf w)))
   | None => (false, false)
   end.
 
@@ -218,9 +221,9 @@ Definition violations (cs : list case) : list (N * N) :=
 (* tag bits: 1 a rotation happened, 2 rotation without newline in the window, 4 two rotations in
    one second, 8 outside remove/rename, 16 rotation at (re)open, 32 channel case, 64 Send blocked *)
 Definition hist_tag (h : list hent) : N :=
-  ((match h with [] => 0 | _ => 1 end)
-   + (if has_drop h then 2 else 0)
-   + (if secs_distinct h then 0 else 4)
+  ((if existsb is_rot h then 1 else 0)
+   + (if has_nowin h then 2 else 0)
+   + (if has_samesec h then 4 else 0)
    + (if existsb (fun e => match h_kind e with ROpen => true | _ => false end) h then 16 else 0))%N.
 
 Definition tags (cs : list case) : list (N * N) :=
